@@ -6,7 +6,7 @@
 import Torf.Generated.Kernels
 import Torf.Model.Validate
 namespace Torf.C07
-open Torf.Generated Torf.Validate
+open Torf Torf.Export Torf.Generated Torf.Validate
 
 /-- `utils.is_divisible_by_16_kib` as used by the `piece length` check -/
 theorem C07_kernel_divisible (v : PyVal) :
@@ -32,5 +32,123 @@ theorem C07_kernel_divisible_pos (x : Int) (h : isDivisibleBy16Kib x = true) : 0
   by_cases hx : x ≤ 0
   · simp [hx] at h
   · omega
+
+/-! ### the type rules of `validate()` as data (round 6)
+
+`Generated.validateCommonAsserts` / `validateSingleAsserts` / `validateFileAsserts` are the runs of
+`utils.assert_type(md, <key path>, <types>, must_exist=…, check=…)` statements of `Torrent.validate`, read from the
+source on every run: key path, type names, `must_exist` (default from `assert_type`'s signature), check function.
+`runAsserts` interprets such a table with the model's `assertType`; the class names and check names are given their
+meaning below (`isinstName`, `checkNamed`: trusted reading of the Python names). -/
+
+/-- `isinstance(v, <class>)` for the class names used in the type tuples -/
+def isinstName (v : PyVal) (c : String) : Bool :=
+  if c = "dict" ∨ c = "abc.Mapping" then v.isDict
+  else if c = "str" then v.isStr
+  else if c = "bytes" then v.isBytes
+  else if c = "int" then v.isInt
+  else if c = "bool" then (match v with | .bool _ => true | _ => false)
+  else if c = "float" then v.isFloat
+  else if c = "datetime" then (match v with | .datetime _ => true | _ => false)
+  else if c = "utils.Iterable" then v.isIterable
+  else false
+
+/-- the `check=` functions by name; an unknown name rejects everything (so a new check function cannot go unnoticed) -/
+def checkNamed (urlOk : Bytes → Bool) (c : String) : Option (PyVal → Bool) :=
+  if c = "" then none
+  else if c = "utils.is_divisible_by_16_kib" then some isDivisibleBy16KiB
+  else if c = "utils.is_url" then some (isUrl urlOk)
+  else if c = "utils.is_file_length" then some isFileLength
+  else if c = "utils.is_md5sum" then some isMd5sum
+  else some (fun _ => false)
+
+/-- a key of a generated key path: `"#i"` is the loop index -/
+def keyOf (i : Nat) (k : String) : Key := if k = "#i" then .i i else .s k
+
+abbrev AssertRow := List String × List String × Bool × String
+
+def ruleOf (urlOk : Bytes → Bool) (e : AssertRow) : Rule :=
+  { types := fun v => e.2.1.any (isinstName v), mustExist := e.2.2.1, check := checkNamed urlOk e.2.2.2 }
+
+/-- run a table of rules in order; the first failure ends the run -/
+def runAsserts (urlOk : Bytes → Bool) (md : PyVal) (i : Nat) : List AssertRow → Except ErrKind Unit
+  | [] => pure ()
+  | e :: t => do
+    assertType md (e.1.map (keyOf i)) (ruleOf urlOk e)
+    runAsserts urlOk md i t
+
+private theorem types_dict : (fun v => ["dict"].any (isinstName v)) = PyVal.isDict := by
+  funext v; simp [isinstName]
+private theorem types_strbytes : (fun v => ["str", "bytes"].any (isinstName v)) = isStrOrBytes := by
+  funext v; simp [isinstName, isStrOrBytes]
+private theorem types_int : (fun v => ["int"].any (isinstName v)) = PyVal.isInt := by
+  funext v; simp [isinstName]
+private theorem types_bytes : (fun v => ["bytes"].any (isinstName v)) = PyVal.isBytes := by
+  funext v; simp [isinstName]
+private theorem types_boolint : (fun v => ["bool", "int"].any (isinstName v)) = PyVal.isInt := by
+  funext v; cases v <;> simp [isinstName, PyVal.isInt]
+private theorem types_intdt : (fun v => ["int", "datetime"].any (isinstName v)) = isIntOrDatetime := by
+  funext v; cases v <;> simp [isinstName, isIntOrDatetime, PyVal.isInt]
+private theorem types_str : (fun v => ["str"].any (isinstName v)) = PyVal.isStr := by
+  funext v; simp [isinstName]
+private theorem types_iter : (fun v => ["utils.Iterable"].any (isinstName v)) = PyVal.isIterable := by
+  funext v; simp [isinstName]
+private theorem types_intfloat : (fun v => ["int", "float"].any (isinstName v)) = isIntOrFloat := by
+  funext v; simp [isinstName, isIntOrFloat]
+private theorem types_mapping : (fun v => ["abc.Mapping"].any (isinstName v)) = PyVal.isDict := by
+  funext v; simp [isinstName]
+
+/-- the rules shared by single-file and multi-file torrents: the model's `checkCommon` IS the source's
+    first run of `assert_type` calls, interpreted in order -/
+theorem C07_kernel_common_asserts (urlOk : Bytes → Bool) (md : PyVal) :
+    checkCommon urlOk md = runAsserts urlOk md 0 validateCommonAsserts := by
+  unfold checkCommon validateCommonAsserts
+  simp only [runAsserts, ruleOf, keyOf, checkNamed, List.map, types_dict, types_strbytes, types_int, types_bytes,
+    types_boolint, types_intdt, types_str, types_iter]
+  simp
+
+/-- the single-file branch starts with the source's run of calls for `length` and `md5sum`: whatever that run
+    raises, the branch raises (the piece-count and disk checks come after it) -/
+theorem C07_kernel_single_asserts (urlOk : Bytes → Bool) (fs : FsOracle) (md info : PyVal) (plen : Nat) (e : ErrKind)
+    (h : runAsserts urlOk md 0 validateSingleAsserts = .error e) :
+    checkSingle fs md info plen = .error e := by
+  unfold validateSingleAsserts at h
+  simp only [runAsserts, ruleOf, keyOf, checkNamed, List.map, types_intfloat, types_str] at h
+  simp at h
+  unfold checkSingle
+  cases h1 : assertType md [.s "info", .s "length"] { types := isIntOrFloat, check := some isFileLength } with
+  | error e1 =>
+    simp [h1, bind, Except.bind] at h ⊢
+    exact h
+  | ok u1 =>
+    cases h2 : assertType md [.s "info", .s "md5sum"] { types := PyVal.isStr, mustExist := false, check := some isMd5sum } with
+    | error e2 =>
+      simp [h1, h2, bind, Except.bind] at h ⊢
+      exact h
+    | ok u2 =>
+      simp [h1, h2, bind, Except.bind, pure, Except.pure] at h
+
+/-- the per-file block of the multi-file branch starts with the source's run of calls for entry `i`
+    (`files[i]` a mapping, its `length`, `path`, `md5sum`): whatever that run raises, the block raises -/
+theorem C07_kernel_file_asserts (urlOk : Bytes → Bool) (md : PyVal) (i : Nat) (fileinfo : PyVal) (e : ErrKind)
+    (h : runAsserts urlOk md i validateFileAsserts = .error e) :
+    checkFile md i fileinfo = .error e := by
+  unfold validateFileAsserts at h
+  simp only [runAsserts, ruleOf, keyOf, checkNamed, List.map, types_mapping, types_intfloat, types_iter, types_str] at h
+  simp at h
+  unfold checkFile
+  cases h1 : assertType md [.s "info", .s "files", .i i] { types := PyVal.isDict } with
+  | error e1 => simp [h1, bind, Except.bind] at h ⊢; exact h
+  | ok u1 =>
+    cases h2 : assertType md [.s "info", .s "files", .i i, .s "length"] { types := isIntOrFloat, check := some isFileLength } with
+    | error e2 => simp [h1, h2, bind, Except.bind] at h ⊢; exact h
+    | ok u2 =>
+      cases h3 : assertType md [.s "info", .s "files", .i i, .s "path"] { types := PyVal.isIterable } with
+      | error e3 => simp [h1, h2, h3, bind, Except.bind] at h ⊢; exact h
+      | ok u3 =>
+        cases h4 : assertType md [.s "info", .s "files", .i i, .s "md5sum"]
+            { types := PyVal.isStr, mustExist := false, check := some isMd5sum } with
+        | error e4 => simp [h1, h2, h3, h4, bind, Except.bind] at h ⊢; exact h
+        | ok u4 => simp [h1, h2, h3, h4, bind, Except.bind, pure, Except.pure] at h
 
 end Torf.C07
